@@ -166,6 +166,26 @@ def facts():
     f["parview_mut_needs_send"] = ("ParView<'a>for&'amutComponentwhereComponent:component::Component+Send" in pv
                                    and "ParView<'a>forOption<&'amutComponent>whereComponent:component::Component+Send" in pv)
     f["parviews_need_send"] = "pubtraitParViews<'a>:ParViewsSeal<'a>+Send" in pv and "pubtraitParView<'a>:ParViewSeal<'a>+Send" in pv
+    # ---- run_schedule hands the system value and all of its views to the pool's threads: the Task impls
+    tsrc = read("src/system/schedule/task/sealed.rs")
+    for key, ty, sysvar, systrait in (("system", "System<S>", "S", "system::System"), ("parsystem", "ParSystem<P>", "P", "system::ParSystem")):
+        hs = [norm(h) for h, b in impl_blocks(tsrc) if re.search(r"\bTask<[^{]*>\s*for\s+%s" % re.escape(ty), h, re.S)]
+        if len(hs) != 1:
+            raise ParseFailure("task/sealed.rs: impl Task for %s" % ty)
+        h = hs[0]
+        w = h[h.find("where"):]
+        f["task_%s_self_send" % key] = ("%s:%s+Send" % (sysvar, systrait)) in w
+        f["task_%s_views_send" % key] = ("%s::Views<'a>:Send" % sysvar) in w
+        f["task_%s_res_send" % key] = ("%s::ResourceViews<'a>:Send" % sysvar) in w
+        k0 = w.find("%s::EntryViews<'a>:" % sysvar)
+        bound = ""
+        if k0 >= 0:
+            d_, k1 = 0, k0 + len("%s::EntryViews<'a>:" % sysvar)
+            while k1 < len(w) and not (w[k1] in ",{" and d_ == 0):
+                d_ += {"<": 1, ">": -1}.get(w[k1], 0)
+                k1 += 1
+            bound = w[k0:k1]
+        f["task_%s_entry_send" % key] = bound.endswith("+Send") or "+Send+" in bound
     # references are views of component types: &C is Send iff C: Sync, &mut C is Send iff C: Send (std)
     # ---- what the result of a query borrows: the receiver (then a second call is a borrow error) or the world
     def sig(rel, fn_name, nth=0):
@@ -218,7 +238,9 @@ def emit(f):
               "world_entry_query_borrows_receiver", "entries_entry_query_borrows_receiver", "world_query_borrows_receiver",
               "view_resources_borrows_receiver", "get_mut_borrows_receiver",
               "wb_push", "wb_buffer_push", "wb_extend", "wb_reserve", "wb_shrink", "wb_other",
-              "de_row_pops", "de_row_complete_flag"]:
+              "de_row_pops", "de_row_complete_flag",
+              "task_system_self_send", "task_system_views_send", "task_system_res_send", "task_system_entry_send",
+              "task_parsystem_self_send", "task_parsystem_views_send", "task_parsystem_res_send", "task_parsystem_entry_send"]:
         o.append("Definition fact_%s : bool := %s." % (k, b(f[k])))
     o.append("Definition world_literal_sites : list string := [%s]." % "; ".join('"%s"' % s for s in f["literal_sites"]))
     o.append("Definition batch_literal_sites : list string := [%s]." % "; ".join('"%s"' % s for s in f["batch_literal_sites"]))
